@@ -492,6 +492,14 @@ func c07WritersGen(t *rapid.T) C07Writers {
 			}
 			b = COp{Kind: "debug", On: chance(t, "onm", 60)}
 		}
+		if chance(t, "twocfg", 25) {
+			// two configuration changes at once, one of them often to passthrough
+			a = COp{Kind: "reconf", Cfg: intIn(t, "cfga", 1, 4)}
+			b = COp{Kind: "reconf", Cfg: intIn(t, "cfgb", 1, 4)}
+			if chance(t, "nila", 60) {
+				a = COp{Kind: "reconf_nil"}
+			}
+		}
 		if chance(t, "swap", 50) {
 			a, b = b, a
 		}
@@ -510,6 +518,14 @@ func stateSig(m *cors.Middleware) string {
 	return b.String()
 }
 
+// quickObs makes four independent observations of the middleware's state:
+// Config(), a debug-sensitive failing preflight, a succeeding preflight and an
+// actual request. Each is a single call and is judged on its own (the state
+// may legitimately change between two of them).
+func quickObs(m *cors.Middleware) [4]string {
+	return [4]string{cfgJSON(m.Config()), Do(m.Wrap, c07Requests[1], nil).Sig(), Do(m.Wrap, c07Requests[0], nil).Sig(), Do(m.Wrap, c07Requests[8], nil).Sig()}
+}
+
 func c07WritersCheck(c C07Writers, rec *Recorder) *Disc {
 	ref := map[dbgState]string{}
 	sigOf := func(s dbgState) string {
@@ -520,11 +536,36 @@ func c07WritersCheck(c C07Writers, rec *Recorder) *Disc {
 		ref[s] = v
 		return v
 	}
+	qref := map[dbgState][4]string{}
+	qsigOf := func(s dbgState) [4]string {
+		if v, ok := qref[s]; ok {
+			return v
+		}
+		v := quickObs(freshMW(s))
+		qref[s] = v
+		return v
+	}
 	s := dbgState{cfg: 1}
 	m := freshMW(s)
+	const nReaders = 3
 	for i, round := range c.Rounds {
 		start := make(chan struct{})
-		var wg sync.WaitGroup
+		var wg, rg sync.WaitGroup
+		var stop atomic.Bool
+		seen := make([]map[[2]string]struct{}, nReaders) // (kind, result)
+		for r := 0; r < nReaders; r++ {
+			seen[r] = map[[2]string]struct{}{}
+			rg.Add(1)
+			go func(r int) {
+				defer rg.Done()
+				<-start
+				for !stop.Load() {
+					for k, v := range quickObs(m) {
+						seen[r][[2]string{fmt.Sprint(k), v}] = struct{}{}
+					}
+				}
+			}(r)
+		}
 		for _, o := range round {
 			o := o
 			wg.Add(1)
@@ -537,22 +578,55 @@ func c07WritersCheck(c C07Writers, rec *Recorder) *Disc {
 		runtime.Gosched()
 		close(start)
 		wg.Wait()
+		stop.Store(true)
+		rg.Wait()
 		rec.Eval(1)
 		got := stateSig(m)
-		s1 := s.apply(round[0]).apply(round[1])
-		s2 := s.apply(round[1]).apply(round[0])
-		switch {
-		case got == sigOf(s1):
-			s = s1
-		case got == sigOf(s2):
-			s = s2
-		default:
-			return discf("two concurrent writers, round %d: state before %s, concurrent calls %s and %s; afterwards the middleware behaves like neither %s nor %s (the two possible serial orders): Config() and answers = %s",
-				i, s, round[0], round[1], s1, s2, abbrev(got, 500))
+		// a serial order explains the round if its final state is the observed final state and every
+		// concurrent observation is one of the three states it passes through
+		orders := [2][2]COp{{round[0], round[1]}, {round[1], round[0]}}
+		var explained bool
+		var next dbgState
+		for _, ord := range orders {
+			s1 := s.apply(ord[0])
+			s2 := s1.apply(ord[1])
+			if got != sigOf(s2) {
+				continue
+			}
+			ok := true
+			allowed := map[[2]string]bool{}
+			for _, st := range []dbgState{s, s1, s2} {
+				for k, v := range qsigOf(st) {
+					allowed[[2]string{fmt.Sprint(k), v}] = true
+				}
+			}
+			for r := range seen {
+				for o := range seen[r] {
+					if !allowed[o] {
+						ok = false
+					}
+				}
+			}
+			if ok {
+				explained, next = true, s2
+				break
+			}
 		}
-		if s1 != s2 {
+		if !explained {
+			var obs []string
+			for r := range seen {
+				for o := range seen[r] {
+					obs = append(obs, abbrev(o[0]+": "+o[1], 260))
+				}
+			}
+			sort.Strings(obs)
+			return discf("two concurrent writers + %d readers, round %d: state before %s, concurrent calls %s and %s; no serial order of the two calls explains both the final state and what the readers saw meanwhile. final Config()/answers: %s ; distinct concurrent observations: %v",
+				nReaders, i, s, round[0], round[1], abbrev(got, 300), obs)
+		}
+		if s.apply(round[0]).apply(round[1]) != s.apply(round[1]).apply(round[0]) {
 			rec.Class("order-matters")
 		}
+		s = next
 	}
 	rec.NonTrivialHash(h64(fmt.Sprintf("%+v", c.Rounds[:min(len(c.Rounds), 50)])))
 	return nil
@@ -560,8 +634,8 @@ func c07WritersCheck(c C07Writers, rec *Recorder) *Disc {
 
 func TestC07Writers(t *testing.T) {
 	Prop[C07Writers]{ID: "C07", Part: "writers", Gen: c07WritersGen, Check: c07WritersCheck,
-		Rule: "(c) two concurrent writers: 300-3000 rounds; in each round two calls (Reconfigure to one of 4 configurations / nil / invalid, SetDebug; 60% of rounds pair a configuration change with a debug change) are released at the same instant on two goroutines; " +
-			"after both returned, Config() and the answers to the 14 requests must equal those of a fresh middleware in the state reached by one of the two serial orders (lost updates are thereby visible). Runs under the race detector. " +
+		Rule: "(c) two concurrent writers and three concurrent readers: 300-3000 rounds; in each round two calls (Reconfigure to one of 4 configurations / nil / invalid, SetDebug; 60% of rounds pair a configuration change with a debug change) are released at the same instant on two goroutines; " +
+			"a serial order of the two calls must explain BOTH the final state (Config() and the answers to the 14 requests equal those of a fresh middleware in the state that order ends in) AND every observation the readers made meanwhile (each must be one of the three states that order passes through); lost updates and transient never-current states are thereby visible. Runs under the race detector. " +
 			"evaluations = rounds; non-trivial = every drawn round sequence; distinct by sequence.",
 		Assumptions: []string{"schedule-dependent like the stress part: a lost update needs the two calls to overlap"}}.Run(t)
 }
